@@ -9,6 +9,8 @@ extern crate rustc_hir;
 extern crate rustc_interface;
 extern crate rustc_middle;
 extern crate rustc_span;
+extern crate rustc_infer;
+extern crate rustc_trait_selection;
 
 use rustc_driver::Compilation;
 use rustc_hir::def::DefKind;
@@ -336,6 +338,41 @@ impl<'tcx> Ctx<'tcx> {
     }
 }
 
+fn collect_consts<'tcx>(cx: &Ctx<'tcx>, r: &Rvalue<'tcx>, out: &mut Vec<String>) {
+    let mut op = |o: &Operand<'tcx>| {
+        if let Operand::Constant(c) = o {
+            out.push(cx.constant(&c.const_));
+        }
+    };
+    match r {
+        Rvalue::Use(o, ..) => op(o),
+        Rvalue::Cast(_, o, _) => op(o),
+        Rvalue::Aggregate(_, ops) => {
+            for o in ops.iter() {
+                op(o)
+            }
+        }
+        Rvalue::Repeat(o, _) => op(o),
+        _ => {}
+    }
+}
+
+struct UnsafeFinder<'tcx> {
+    tcx: TyCtxt<'tcx>,
+    found: Vec<String>,
+}
+
+impl<'tcx> rustc_hir::intravisit::Visitor<'tcx> for UnsafeFinder<'tcx> {
+    fn visit_block(&mut self, b: &'tcx rustc_hir::Block<'tcx>) {
+        if let rustc_hir::BlockCheckMode::UnsafeBlock(rustc_hir::UnsafeSource::UserProvided) = b.rules {
+            if !b.span.from_expansion() {
+                self.found.push(esc(&span_str(self.tcx, b.span)));
+            }
+        }
+        rustc_hir::intravisit::walk_block(self, b);
+    }
+}
+
 fn dump_body<'tcx>(tcx: TyCtxt<'tcx>, did: rustc_hir::def_id::LocalDefId, out: &mut String) {
     let body: &'tcx Body<'tcx> = tcx.optimized_mir(did.to_def_id());
     let env = TypingEnv::post_analysis(tcx, did.to_def_id());
@@ -369,6 +406,35 @@ fn dump_body<'tcx>(tcx: TyCtxt<'tcx>, did: rustc_hir::def_id::LocalDefId, out: &
             out.push(',');
         }
         let _ = write!(out, "{{\"ty\":{},\"name\":{}}}", cx.ty(ld.ty), esc(&names[i]));
+    }
+    out.push_str("],\"promoted\":[");
+    {
+        // promoted constants (e.g. the `&"next"` operands of string comparisons): the constants each one is built from
+        let proms = tcx.promoted_mir(did.to_def_id());
+        for (pi, pb) in proms.iter().enumerate() {
+            if pi > 0 {
+                out.push(',');
+            }
+            let pcx = Ctx { tcx, env, body: pb };
+            let mut cs: Vec<String> = Vec::new();
+            for bb in pb.basic_blocks.iter() {
+                for st in bb.statements.iter() {
+                    if let StatementKind::Assign(b) = &st.kind {
+                        let (_, r) = &**b;
+                        collect_consts(&pcx, r, &mut cs);
+                    }
+                }
+            }
+            let _ = write!(out, "[{}]", cs.join(","));
+        }
+    }
+    out.push_str("],\"unsafe_blocks\":[");
+    {
+        let mut v = UnsafeFinder { tcx, found: Vec::new() };
+        if let Some(b) = tcx.hir_maybe_body_owned_by(did) {
+            rustc_hir::intravisit::Visitor::visit_body(&mut v, b);
+        }
+        let _ = write!(out, "{}", v.found.join(","));
     }
     out.push_str("],\"blocks\":[");
     for (bi, bb) in body.basic_blocks.iter().enumerate() {
@@ -433,6 +499,21 @@ fn type_facts<'tcx>(tcx: TyCtxt<'tcx>, out: &mut String) {
                 } else {
                     (Some(t.is_freeze(tcx, env)), Some(tcx.type_is_copy_modulo_regions(env, t)))
                 };
+                let (send, sync) = if generic {
+                    (None, None)
+                } else {
+                    use rustc_infer::infer::TyCtxtInferExt;
+                    use rustc_trait_selection::infer::InferCtxtExt;
+                    let (infcx, penv) = tcx.infer_ctxt().build_with_typing_env(env);
+                    let mut r = (None, None);
+                    if let Some(sd) = tcx.get_diagnostic_item(rustc_span::sym::Send) {
+                        r.0 = Some(infcx.type_implements_trait(sd, [t], penv).must_apply_modulo_regions());
+                    }
+                    if let Some(sd) = tcx.get_diagnostic_item(rustc_span::sym::Sync) {
+                        r.1 = Some(infcx.type_implements_trait(sd, [t], penv).must_apply_modulo_regions());
+                    }
+                    r
+                };
                 let mut vs = Vec::new();
                 for v in adt.variants().iter() {
                     let fs: Vec<String> = v
@@ -446,11 +527,13 @@ fn type_facts<'tcx>(tcx: TyCtxt<'tcx>, out: &mut String) {
                     vs.push(format!("{{\"name\":{},\"fields\":[{}]}}", esc(&v.name.to_string()), fs.join(",")));
                 }
                 adts.push(format!(
-                    "{{\"name\":{},\"kind\":{},\"freeze\":{},\"copy\":{},\"variants\":[{}]}}",
+                    "{{\"name\":{},\"kind\":{},\"freeze\":{},\"copy\":{},\"send\":{},\"sync\":{},\"variants\":[{}]}}",
                     esc(&tcx.def_path_str(did)),
                     esc(&format!("{:?}", kind)),
                     freeze.map(|b| b.to_string()).unwrap_or("null".into()),
                     copy.map(|b| b.to_string()).unwrap_or("null".into()),
+                    send.map(|b| b.to_string()).unwrap_or("null".into()),
+                    sync.map(|b| b.to_string()).unwrap_or("null".into()),
                     vs.join(",")
                 ));
             }
